@@ -5,6 +5,7 @@ use indextree::{Arena, NodeEdge, NodeId};
 use std::cell::RefCell;
 use std::collections::HashMap;
 use std::fmt;
+use std::fmt::Write as _;
 use std::io::{self, BufRead, Write};
 use std::num::NonZeroUsize;
 use std::panic::{catch_unwind, AssertUnwindSafe};
@@ -59,7 +60,13 @@ impl fmt::Debug for P {
         // pretty-print replays register a rendering per payload (delivered chunk by chunk); default is the plain number
         let r = RENDER.with(|r| r.borrow().get(&self.0).cloned());
         match r {
-            Some(chunks) => { for c in chunks.iter() { f.write_str(c)?; } Ok(()) }
+            Some(chunks) => {
+                for c in chunks.iter() {
+                    // a piece `|c|X` is handed over as a single char
+                    if let Some(rest) = c.strip_prefix("|c|") { f.write_char(rest.chars().next().unwrap_or(' '))?; } else { f.write_str(c)?; }
+                }
+                Ok(())
+            }
             None => write!(f, "P({})", self.0),
         }
     }
@@ -68,7 +75,13 @@ impl fmt::Display for P {
     fn fmt(&self, f: &mut fmt::Formatter<'_>) -> fmt::Result {
         let r = RENDER.with(|r| r.borrow().get(&self.0).cloned());
         match r {
-            Some(chunks) => { for c in chunks.iter() { f.write_str(c)?; } Ok(()) }
+            Some(chunks) => {
+                for c in chunks.iter() {
+                    // a piece `|c|X` is handed over as a single char
+                    if let Some(rest) = c.strip_prefix("|c|") { f.write_char(rest.chars().next().unwrap_or(' '))?; } else { f.write_str(c)?; }
+                }
+                Ok(())
+            }
             None => write!(f, "P({})", self.0),
         }
     }
@@ -192,6 +205,21 @@ fn run_cmd(m: &mut M, w: &[&str]) -> String {
             format!("{} cap={} adjacent={}", m.arenas.len() - 1, cap, adjacent)
         }
         "arena_clone" => { let c = m.arenas[m.cur].clone(); m.arenas.push(c); format!("{}", m.arenas.len() - 1) }
+        "clone_from" => {
+            // clone_from DST SRC
+            let (i, j): (usize, usize) = (w[1].parse().unwrap(), w[2].parse().unwrap());
+            let src = std::mem::replace(&mut m.arenas[j], Arena::new());
+            m.arenas[i].clone_from(&src);
+            m.arenas[j] = src;
+            "()".into()
+        }
+        "ghost_at" => {
+            // ghost_at G P : the id at 1-based position P of the current arena (live nodes only)
+            let p: usize = w[2].parse().unwrap();
+            let id = m.arenas[m.cur].get_node_id_at(NonZeroUsize::new(p).unwrap()).expect("live position");
+            m.regs.insert(w[1].to_string(), id);
+            idstr(id)
+        }
         "arena_select" => { m.cur = w[1].parse().unwrap(); format!("{}", m.cur) }
         "arena_eq" => { let (i, j): (usize, usize) = (w[1].parse().unwrap(), w[2].parse().unwrap()); format!("{}", m.arenas[i] == m.arenas[j]) }
         "arena_drop" => { let a = std::mem::replace(&mut m.arenas[m.cur], Arena::new()); drop(a); "()".into() }
